@@ -254,7 +254,7 @@ func runC12(cfg *runCfg) error {
 			doc.Dist["answer:"+a.Kind]++
 		}
 		args := fmt.Sprintf("[%s] [%s] [%s]", strings.Join(tb, "; "), strings.Join(evs, "; "), strings.Join(obs, "; "))
-		c.Printf("Eval vm_compute in (%d%%nat, model_agrees %s, property_holds %s).\n", id, args, args)
+		c.Printf("Eval vm_compute in (\"%d\"%%string, model_agrees %s, property_holds %s).\n", id, args, args)
 		key, _ := json.Marshal(h)
 		idle := false
 		for _, e := range h {
@@ -271,7 +271,7 @@ func runC12(cfg *runCfg) error {
 	for i, note := range burstBad {
 		c := sh.File()
 		ok := note == ""
-		c.Printf("Eval vm_compute in (%d%%nat, true, %s).\n", base+i, coqBool(ok))
+		c.Printf("Eval vm_compute in (\"%d\"%%string, true, %s).\n", base+i, coqBool(ok))
 		doc.Cases = append(doc.Cases, CaseInfo{ID: base + i, Kind: "concurrent-burst", Input: map[string]interface{}{"burst": i, "ttl_ms": c12TTL.Milliseconds()},
 			Observed: map[string]interface{}{"ok": ok, "note": note}, Nontrivial: true, Key: fmt.Sprintf("burst-%d-%d", cfg.Seed, i)})
 		doc.Dist["burst"]++
